@@ -1,5 +1,6 @@
 import Srctools.Proofs.C05
 import Srctools.Proofs.C05Round
+import Srctools.Proofs.C05Text
 import Srctools.Gen.Angles
 import Srctools.Gen.Frozen
 set_option exponentiation.threshold 3000
@@ -260,6 +261,40 @@ theorem C05_text_close_bits (w : UInt64) (q : Rat) (h : toRat? (decode w) = some
       exact formatFloat_close (decode w) s m hadd
   | inf s => rw [hd] at h; cases h
   | nan => rw [hd] at h; cases h
+
+/-- `float(format_float(x))`: the text of a finite value parses (as `parseDec` = CPython `float()` does it) to the
+representable value *nearest* to the printed decimal — so it is within 1e-6 of `x` (5e-7 from the printing, at most as
+much again from the parsing, because `x` itself is representable). -/
+theorem C05_text_parse_back (x : Val) (s : Bool) (m : Nat) (hadd : add x zero = .fin s m) (hrep : Rep m)
+    (hlt : m < maxMag) :
+    ∃ p, parseDec (formatFloat x) = some (.fin s p) ∧ Rep p ∧
+      (∀ r, Rep r → abs ((p : Rat) / (U : Rat) - abs (decVal (formatFloat x))) ≤
+                    abs ((r : Rat) / (U : Rat) - abs (decVal (formatFloat x)))) ∧
+      |(p : Rat) / (U : Rat) - (m : Rat) / (U : Rat)| ≤ 1 / 1000000 :=
+  parse_formatFloat x s m hadd hrep hlt
+
+/-- `parse_vec_str(str(v))`, as coded (strip, optional brackets, `split()`, three `float()`s): for three finite doubles
+the text is accepted and every component comes back as a finite double within 1e-6 of the original. (The same text
+is `str()` of a Vec, FrozenVec, Angle and FrozenAngle.) -/
+theorem C05_vec_text_roundtrip (wx wy wz : UInt64) (hx : (decode wx).isFinite = true)
+    (hy : (decode wy).isFinite = true) (hz : (decode wz).isFinite = true) :
+    ∃ vx vy vz, parseVecStr (vecStr (decode wx) (decode wy) (decode wz)) = some (vx, vy, vz) ∧
+      (vx.isFinite = true ∧ |valQ vx - valQ (decode wx)| ≤ 1 / 1000000) ∧
+      (vy.isFinite = true ∧ |valQ vy - valQ (decode wy)| ≤ 1 / 1000000) ∧
+      (vz.isFinite = true ∧ |valQ vz - valQ (decode wz)| ≤ 1 / 1000000) :=
+  vec_roundtrip wx wy wz hx hy hz
+
+/-- The strict bound 5e-7 for the *re-parsed double* is false, and not only in the binade [2^32, 2^33) of the open
+finding: for the tie 0.0234375 the text `0.023438` is exactly 5e-7 away and `float()` adds its own rounding; for
+5932227029.9674835 the re-parsed double is the neighbour, 9.5e-7 away (magnitudes in units of 2^-1074). -/
+theorem C05_text_parse_back_not_5e7 :
+    (match decode 0x3F98000000000000, parseDec (formatFloat (decode 0x3F98000000000000)) with
+      | .fin _ m, some (.fin _ p) => decide (5 * U < (p - m) * 10000000)
+      | _, _ => false) = true ∧
+    (match decode 0x41F619699D5F7AD0, parseDec (formatFloat (decode 0x41F619699D5F7AD0)) with
+      | .fin _ m, some (.fin _ p) => decide (9 * U < (p - m) * 10000000)
+      | _, _ => false) = true := by
+  decide +kernel
 
 example : toRat? (decode 0x405EDD3C07EE0B0B) ≠ none := by decide +kernel   -- 123.4567890123
 
